@@ -58,6 +58,7 @@ Init ==
           hopen |-> [e \in E |-> FALSE],              \* handle.peers contains the peer
           hval |-> [e \in E |-> 0],                   \* id of the validation whose sender handle.pending_validations holds (0 = none)
           nval |-> 0,
+          curv |-> [e \in E |-> 0],                   \* id of the validation request of the substream now being validated
           conn |-> "up", ep |-> 1,
           alive |-> [e \in E |-> TRUE],               \* the protocol loop has not panicked
           nOpen |-> [e \in E |-> 0], nClose |-> [e \in E |-> 0], nCut |-> 0, nRec |-> 0, nFail |-> 0, nStall |-> 0,
@@ -242,7 +243,7 @@ OnHsInOk(x, e) ==
   ELSE IF s.k = "val" /\ s.in = "reading" THEN
        IF s.out # "closed" /\ e \in AutoSet THEN SetSt(SendHs(x1, e, sub), e, [s EXCEPT !.in = "sending"])
        ELSE [SetSt(x1, e, [s EXCEPT !.in = "validating", !.isub = sub]) EXCEPT
-                 !.vf[e] = Append(@, [id |-> x.nval + 1, r |-> "wait"]), !.nval = @ + 1,
+                 !.vf[e] = Append(@, [id |-> x.nval + 1, r |-> "wait"]), !.nval = @ + 1, !.curv[e] = x.nval + 1,
                  !.evq[e] = Append(@, [k |-> "validate", id |-> x.nval + 1])]
   ELSE IF s.k = "val" /\ s.in = "sending" THEN HsTail(SetSt(x1, e, [s EXCEPT !.in = "open", !.isub = sub]), e)
   ELSE Panic(SetSt(DropState(DropEnd(x1, e, sub), e), e, [k |-> "poisoned"]), e, "inbound-negotiated-unexpected-" \o s.k)
@@ -308,7 +309,11 @@ ProtoValidation(e) ==
   /\ w.alive[e] /\ ~B1(w, e) /\ ~B2(w, e) /\ ~B4(w, e) /\ B5(w, e)
   /\ \E i \in DOMAIN w.vf[e] :
        /\ w.vf[e][i].r # "wait"
-       /\ Step(OnValidation([w EXCEPT !.vf[e] = RemoveAt(@, i)], e, w.vf[e][i].r))
+       \* pending_validations is keyed by peer only: the answer to an earlier request (whose substream died
+       \* with its connection) is applied to the substream that is being validated now
+       /\ LET stale == w.st[e].k = "val" /\ w.st[e].in = "validating" /\ w.vf[e][i].id # w.curv[e]
+              x0 == IF stale THEN [w EXCEPT !.kf = @ \cup {"stale-validation-result"}] ELSE w IN
+          Step(OnValidation([x0 EXCEPT !.vf[e] = RemoveAt(@, i)], e, w.vf[e][i].r))
 
 ProtoCommand(e) ==
   /\ w.alive[e] /\ ~B1(w, e) /\ ~B2(w, e) /\ ~B4(w, e) /\ ~B5(w, e) /\ B6(w, e)
